@@ -151,4 +151,565 @@ theorem mayView_mono (hle : ContactLe cx cx' u u') (hu : u ≠ "") (t : Table) (
     · exact viewObject_mono hle _ _ hv
     · exact viewObject_mono hle _ _ hv
 
+/-! ## 2. contexts on the same backend data -/
+
+/-- two contexts with the same schema and the same backend: the datasets may differ in the authorisation
+    settings (and in their other backends) -/
+structure SameData (cx cx' : Ctx) : Prop where
+  schema : cx.schema = cx'.schema
+  b : cx.b = cx'.b
+
+section SameData
+variable {cx cx' : Ctx}
+
+theorem table_sd (h : SameData cx cx') (n : String) : cx.table n = cx'.table n := by
+  simp only [Ctx.table, h.schema]
+
+theorem refRow_sd (h : SameData cx cx') (t : Table) (r : Row) (rt : String) :
+    refRow cx t r rt = refRow cx' t r rt := by
+  simp only [refRow, table_sd h, h.b]
+
+theorem virtVal_sd (h : SameData cx cx') (t : Table) (r : Row) (c : Column) :
+    virtVal cx t r c = virtVal cx' t r c := by
+  simp only [virtVal, h.schema, h.b, table_sd h]
+
+theorem getVal_sd (h : SameData cx cx') (t : Table) (r : Row) (c : Column) :
+    getVal cx t r c = getVal cx' t r c := by
+  simp only [getVal, refRow_sd h, virtVal_sd h, table_sd h, h.b]
+
+theorem mkView_sd (h : SameData cx cx') (t : Table) : mkView cx t = mkView cx' t := by
+  funext r
+  have : getVal cx t r = getVal cx' t r := funext (getVal_sd h t r)
+  simp only [mkView, this, h.b]
+
+theorem groupByRows_sd (h : SameData cx cx') (t : Table) : groupByRows cx t = groupByRows cx' t := by
+  simp only [groupByRows, refRow_sd h, table_sd h, h.b]
+
+theorem tableRows_sd (h : SameData cx cx') (t : Table) : tableRows cx t = tableRows cx' t := by
+  simp only [tableRows, groupByRows_sd h, h.b]
+
+theorem leafIndexKeys_sd (h : SameData cx cx') (k : IndexKind) (t : Table) (l : Leaf) :
+    leafIndexKeys cx k t l = leafIndexKeys cx' k t l := by
+  simp only [leafIndexKeys, table_sd h, h.b]
+
+theorem preFiltered_sd (h : SameData cx cx') (t : Table) (rows : List Row) (fs : List Filter) :
+    preFiltered cx t rows fs = preFiltered cx' t rows fs := by
+  have : ∀ k, leafIndexKeys cx k t = leafIndexKeys cx' k t := fun k => funext (leafIndexKeys_sd h k t)
+  simp only [preFiltered, this]
+
+theorem hostRow_sd (h : SameData cx cx') (x : String) : hostRow cx x = hostRow cx' x := by
+  simp only [hostRow, table_sd h, h.b]
+
+theorem svcRow_sd (h : SameData cx cx') (x y : String) : svcRow cx x y = svcRow cx' x y := by
+  simp only [svcRow, table_sd h, h.b]
+
+theorem hostgroupRow_sd (h : SameData cx cx') (g : String) : hostgroupRow cx g = hostgroupRow cx' g := by
+  simp only [hostgroupRow, table_sd h, h.b]
+
+theorem servicegroupRow_sd (h : SameData cx cx') (g : String) : servicegroupRow cx g = servicegroupRow cx' g := by
+  simp only [servicegroupRow, table_sd h, h.b]
+
+theorem hostContact_sd (h : SameData cx cx') (u x : String) : hostContact cx u x = hostContact cx' u x := by
+  simp only [hostContact, hostRow_sd h]
+
+theorem svcContact_sd (h : SameData cx cx') (u x y : String) : svcContact cx u x y = svcContact cx' u x y := by
+  simp only [svcContact, svcRow_sd h]
+
+/-- on the same backend data: the same user, the settings the same or moved from strict to loose -/
+theorem contactLe_of_sameData (h : SameData cx cx') (u : String)
+    (sal : cx.ds.serviceAuthLoose = true → cx'.ds.serviceAuthLoose = true)
+    (gal : cx.ds.groupAuthLoose = true → cx'.ds.groupAuthLoose = true)
+    (orphan : cx.ds.serviceAuthLoose = false → cx'.ds.serviceAuthLoose = true →
+      ∀ x y, svcContact cx u x y = true → (hostRow cx x).isSome = true) :
+    ContactLe cx cx' u u where
+  sal := sal
+  gal := gal
+  hostExists := fun x hx => by rw [← hostRow_sd h]; exact hx
+  host := fun x hx => by rw [← hostContact_sd h]; exact hx
+  svc := fun x y hx => by rw [← svcContact_sd h]; exact hx
+  orphan := fun h1 h2 x y hx => by rw [← hostRow_sd h]; exact orphan h1 h2 x y hx
+  hg := fun g => by rw [hostgroupRow_sd h]
+  sg := fun g => by rw [servicegroupRow_sd h]
+
+/-- the matching rows under a weaker authorisation test contain the matching rows under a stronger one,
+    in the same order -/
+theorem matchingRows_sublist (h : SameData cx cx') (m : EvalMode) (t : Table) (f : List Filter) (u u' : String)
+    (himp : ∀ r, checkAuth cx t u r = true → checkAuth cx' t u' r = true) :
+    (matchingRows m cx t f u).Sublist (matchingRows m cx' t f u') := by
+  unfold matchingRows
+  rw [tableRows_sd h, preFiltered_sd h, mkView_sd h]
+  apply filter_sublist_filter
+  intro r _ hr
+  rw [Bool.and_eq_true] at hr ⊢
+  exact ⟨hr.1, himp r hr.2⟩
+
+theorem mkHit_sd (h : SameData cx cx') (t : Table) (sort : List SortField) :
+    mkHit cx t sort = mkHit cx' t sort := by
+  funext r
+  simp only [mkHit, mkView_sd h, h.b]
+
+theorem peerCut_of_no_limit (m : EvalMode) (req : Request) (hl : req.limit = none) : peerCut m req = none := by
+  simp [peerCut, resultLimit, hl]
+
+/-- the rows one backend returns under a weaker authorisation test contain the rows it returns under a
+    stronger one, in the same order (no per-backend cut) -/
+theorem gatherRows_hits_sublist (h : SameData cx cx') (m : EvalMode) (t : Table) (req req' : Request)
+    (hf : req'.filter = req.filter) (hs : req'.sort = req.sort)
+    (hcut : peerCut m req = none) (hcut' : peerCut m req' = none)
+    (himp : ∀ r, checkAuth cx t req.authUser r = true → checkAuth cx' t req'.authUser r = true) :
+    (gatherRows m cx t req).hits.Sublist (gatherRows m cx' t req').hits := by
+  rw [gatherRows_hits, gatherRows_hits, hcut, hcut']
+  simp only [fullHits, hf, hs, mkHit_sd h]
+  exact (matchingRows_sublist h m t req.filter _ _ himp).map _
+
+end SameData
+
+/-- the whole answer (no `Limit:`, no `Offset:`): if every backend returns a sublist, every returned row is
+    returned, and without `Sort:` the answer is a sublist -/
+theorem dataQuery_contained (m : EvalMode) (s : Schema) (ds ds' : Dataset) (t : Table) (req req' : Request)
+    (hl : req.limit = none) (ho : req.offset = 0) (hl' : req'.limit = none) (ho' : req'.offset = 0)
+    (hav : availBackends ds' t req' = availBackends ds t req) (hsort : req'.sort = req.sort)
+    (hsub : ∀ b ∈ availBackends ds t req,
+      (gatherRows m { schema := s, ds := ds, b := b } t req).hits.Sublist
+        (gatherRows m { schema := s, ds := ds', b := b } t req').hits) :
+    (∀ h ∈ (dataQuery m s ds t req).hits, h ∈ (dataQuery m s ds' t req').hits) ∧
+    (req.sort = [] → (dataQuery m s ds t req).hits.Sublist (dataQuery m s ds' t req').hits) := by
+  have hc : (collected m s ds t req).Sublist (collected m s ds' t req') := by
+    rw [collected_eq_flatMap, collected_eq_flatMap, hav]
+    exact sublist_flatMap_pointwise _ _ _ hsub
+  rw [hits_eq_sortHits m s ds t req hl ho, hits_eq_sortHits m s ds' t req' hl' ho']
+  constructor
+  · intro h hh
+    rw [(sortHits_perm req _).mem_iff] at hh
+    rw [(sortHits_perm req' _).mem_iff]
+    exact hc.subset hh
+  · intro hs
+    rw [sortHits_nosort req hs, sortHits_nosort req' (hsort.trans hs)]
+    exact hc
+
+/-! ## 3. two users on one store -/
+
+/-- wherever `u` is named as a contact of a host or a service of the backend, `u'` is named too -/
+def Dominates (cx : Ctx) (u u' : String) : Prop :=
+  (∀ r ∈ cx.b.rows "hosts", u ∈ r.strList "contacts" → u' ∈ r.strList "contacts") ∧
+  (∀ r ∈ cx.b.rows "services", u ∈ r.strList "contacts" → u' ∈ r.strList "contacts")
+
+theorem contactLe_of_dominates {cx : Ctx} {u u' : String} (h : Dominates cx u u') : ContactLe cx cx u u' where
+  sal := id
+  gal := id
+  hostExists := fun _ hx => hx
+  host := fun x hx => by
+    unfold hostContact listsContact at hx ⊢
+    cases hr : hostRow cx x with
+    | none => simp [hr] at hx
+    | some r =>
+      have hm : r ∈ cx.b.rows "hosts" := (Lemmas.findByKey_some hr).1
+      simp only [hr, Option.any_some, List.contains_eq_mem, decide_eq_true_eq] at hx ⊢
+      exact h.1 r hm hx
+  svc := fun x y hx => by
+    unfold svcContact listsContact at hx ⊢
+    cases hr : svcRow cx x y with
+    | none => simp [hr] at hx
+    | some r =>
+      have hm : r ∈ cx.b.rows "services" := (Lemmas.findByKey_some hr).1
+      simp only [hr, Option.any_some, List.contains_eq_mem, decide_eq_true_eq] at hx ⊢
+      exact h.2 r hm hx
+  orphan := fun h1 h2 => by rw [h1] at h2; cases h2
+  hg := fun _ => rfl
+  sg := fun _ => rfl
+
+/-! ## 4. a user who is a contact of nothing -/
+
+/-- no host and no service of the backend names `u` as a contact -/
+def NoContact (cx : Ctx) (u : String) : Prop :=
+  (∀ r ∈ cx.b.rows "hosts", u ∉ r.strList "contacts") ∧
+  (∀ r ∈ cx.b.rows "services", u ∉ r.strList "contacts")
+
+section NoContact
+variable {cx : Ctx} {u : String}
+
+theorem hostContact_noContact (hn : NoContact cx u) (x : String) : hostContact cx u x = false := by
+  unfold hostContact listsContact
+  cases hr : hostRow cx x with
+  | none => rfl
+  | some r =>
+    have hm : r ∈ cx.b.rows "hosts" := (Lemmas.findByKey_some hr).1
+    simpa using hn.1 r hm
+
+theorem svcContact_noContact (hn : NoContact cx u) (x y : String) : svcContact cx u x y = false := by
+  unfold svcContact listsContact
+  cases hr : svcRow cx x y with
+  | none => rfl
+  | some r =>
+    have hm : r ∈ cx.b.rows "services" := (Lemmas.findByKey_some hr).1
+    simpa using hn.2 r hm
+
+theorem viewObject_noContact (hn : NoContact cx u) (x y : String) : viewObject cx u x y = false := by
+  unfold viewObject viewHost viewService
+  simp [hostContact_noContact hn, svcContact_noContact hn]
+
+theorem viewMembers_false {α : Type} (l : Bool) (ms : List α) : viewMembers l (fun _ => false) ms = false := by
+  unfold viewMembers
+  cases l <;> cases ms <;> simp
+
+theorem viewHostGroup_noContact (hn : NoContact cx u) (g : String) : viewHostGroup cx u g = false := by
+  unfold viewHostGroup
+  cases hostgroupRow cx g with
+  | none => rfl
+  | some gr =>
+    have : viewHost cx u = fun _ => false := funext (fun x => hostContact_noContact hn x)
+    simp only [this]
+    exact viewMembers_false _ _
+
+theorem viewServiceGroup_noContact (hn : NoContact cx u) (g : String) : viewServiceGroup cx u g = false := by
+  unfold viewServiceGroup
+  cases servicegroupRow cx g with
+  | none => rfl
+  | some gr =>
+    have : (fun (m : String × String) => viewObject cx u m.1 m.2) = fun _ => false :=
+      funext (fun m => viewObject_noContact hn m.1 m.2)
+    simp only [this]
+    exact viewMembers_false _ _
+
+/-- nothing of the nine authorised tables is visible to a user who is a contact of nothing -/
+theorem mayView_noContact (hn : NoContact cx u) (hu : u ≠ "") (t : Table) (ht : t.name ∈ authTables) (r : Row) :
+    mayView cx t u r = false := by
+  have hH : ∀ x, viewHost cx u x = false := fun x => hostContact_noContact hn x
+  have hO := viewObject_noContact hn
+  have hG := viewHostGroup_noContact hn
+  have hS := viewServiceGroup_noContact hn
+  unfold mayView
+  rw [if_neg hu]
+  split <;> first
+    | (simp [hH, hO, hG, hS]; done)
+    | (exfalso; simp only [authTables, List.mem_cons, List.not_mem_nil, or_false] at ht; simp_all)
+
+end NoContact
+
+theorem matchingRows_nil (m : EvalMode) (cx : Ctx) (t : Table) (f : List Filter) (u : String)
+    (hfalse : ∀ r, checkAuth cx t u r = false) : matchingRows m cx t f u = [] := by
+  unfold matchingRows
+  simp [hfalse]
+
+theorem gatherRows_nil (m : EvalMode) (cx : Ctx) (t : Table) (req : Request)
+    (hfalse : ∀ r, checkAuth cx t req.authUser r = false) :
+    (gatherRows m cx t req).hits = [] ∧ (gatherRows m cx t req).total = 0 := by
+  have hf : fullHits m cx t req = [] := by
+    unfold fullHits; rw [matchingRows_nil m cx t _ _ hfalse]; rfl
+  rw [gatherRows_eq, hf]
+  cases peerCut m req <;> simp
+
+theorem sum_map_zero {α : Type} (f : α → Nat) : ∀ l : List α, (∀ a ∈ l, f a = 0) → (l.map f).sum = 0
+  | [], _ => rfl
+  | a :: l, h => by
+    rw [List.map_cons, List.sum_cons, h a (List.mem_cons_self ..),
+      sum_map_zero f l (fun x hx => h x (List.mem_cons_of_mem _ hx))]
+
+/-- whole answer when no available backend shows the user anything -/
+theorem dataQuery_nil (m : EvalMode) (s : Schema) (ds : Dataset) (t : Table) (req : Request)
+    (hfalse : ∀ b ∈ availBackends ds t req, ∀ r, checkAuth { schema := s, ds := ds, b := b } t req.authUser r = false) :
+    (dataQuery m s ds t req).hits = [] ∧ (dataQuery m s ds t req).total = 0 := by
+  constructor
+  · rw [List.eq_nil_iff_forall_not_mem]
+    intro h hh
+    obtain ⟨b, hb, hin⟩ := (Lemmas.mem_collected_iff m s ds t req h).mp (mem_hits_collected m s ds t req h hh)
+    rw [(gatherRows_nil m _ t req (hfalse b hb)).1] at hin
+    cases hin
+  · rw [dataQuery_total, totalOf_eq_sum]
+    exact sum_map_zero _ _ (fun b hb => (gatherRows_nil m _ t req (hfalse b hb)).2)
+
+theorem foldRows_skip (ok : Row → Bool) (keyOf : Row → String) (cnt : Row → Accs → Option Accs) (init : Accs) :
+    ∀ (rows : List Row) (M : StatsMap), (∀ r ∈ rows, ok r = false) →
+      foldRows (kstep ok keyOf cnt init) rows M = some M
+  | [], _, _ => rfl
+  | r :: rs, M, h => by
+    have hr := h r (List.mem_cons_self ..)
+    simp only [foldRows, kstep, hr, Bool.not_false, if_true]
+    exact foldRows_skip ok keyOf cnt init rs M (fun x hx => h x (List.mem_cons_of_mem _ hx))
+
+theorem gatherStats_nil (m : StatsMode) (cx : Ctx) (t : Table) (req : Request) (cols : List Column)
+    (hfalse : ∀ r, checkAuth cx t req.authUser r = false) : gatherStats m cx t req cols = some [] := by
+  rw [gatherStats_eq]
+  apply foldRows_skip
+  intro r _
+  simp [gsOk, hfalse]
+
+theorem foldl_mergeStats_nil : ∀ l : List StatsMap, (∀ M ∈ l, M = []) → l.foldl mergeStats [] = []
+  | [], _ => rfl
+  | M :: l, h => by
+    rw [List.foldl_cons, h M (List.mem_cons_self ..)]
+    exact foldl_mergeStats_nil l (fun x hx => h x (List.mem_cons_of_mem _ hx))
+
+/-- Stats when no available backend shows the user anything: no crash, no group, all slots untouched -/
+theorem statsQuery_nil (m : StatsMode) (s : Schema) (ds : Dataset) (t : Table) (req : Request)
+    (hfalse : ∀ b ∈ availBackends ds t req, ∀ r, checkAuth { schema := s, ds := ds, b := b } t req.authUser r = false) :
+    (statsQuery m s ds t req).crash = false ∧
+    (statsQuery m s ds t req).rows =
+      if req.columns.isEmpty then [("", req.stats.map (fun e => Acc.init e.accKind))] else [] := by
+  have hgs : ∀ b ∈ availBackends ds t req, Dist.gsOf m s ds t req b = some [] :=
+    fun b hb => gatherStats_nil m _ t req _ (hfalse b hb)
+  have hcr : Dist.crashOf m s ds t req (availBackends ds t req) = false := by
+    unfold Dist.crashOf
+    rw [List.any_eq_false]
+    intro b hb
+    simp [hgs b hb]
+  have hm : Dist.mergedOf m s ds t req (availBackends ds t req) = [] := by
+    unfold Dist.mergedOf Dist.mapsOf
+    apply foldl_mergeStats_nil
+    intro M hM
+    rw [List.mem_filterMap] at hM
+    obtain ⟨b, hb, hbM⟩ := hM
+    rw [hgs b hb] at hbM
+    exact (Option.some.inj hbM).symm
+  refine ⟨by rw [Dist.statsQuery_crash, hcr], ?_⟩
+  rw [Dist.statsQuery_rows m s ds t req hcr, hm]
+  simp [Dist.fixRows, gsInit]
+
+
+/-! ## 5. the row loop as a function of the visible rows -/
+
+/-- what a client sees of a returned row: the row and its sort keys (not the backend it is stored in) -/
+def obs (h : Hit) : Row × List SortKey := (h.r, h.keys)
+
+/-- two contexts show user `u` the same rows of table `t`, and these rows read the same in both -/
+structure VisAgree (cx cx' : Ctx) (t : Table) (u : String) : Prop where
+  rows : (tableRows cx t).filter (checkAuth cx t u) = (tableRows cx' t).filter (checkAuth cx' t u)
+  view : ∀ r ∈ (tableRows cx t).filter (checkAuth cx t u), mkView cx t r = mkView cx' t r
+
+/-- full scan: the matching rows are the visible rows that pass the filter - the filter is only ever
+    relevant on visible rows -/
+theorem matchingRows_scan (m : EvalMode) (hi : m.useIndex = false) (cx : Ctx) (t : Table) (f : List Filter)
+    (u : String) :
+    matchingRows m cx t f u =
+      ((tableRows cx t).filter (checkAuth cx t u)).filter (fun r => rowMatches m (mkView cx t r) f) := by
+  simp [matchingRows, hi, List.filter_filter]
+
+section VisAgree
+variable {cx cx' : Ctx} {t : Table} {u : String}
+
+theorem matchingRows_visAgree (m : EvalMode) (hi : m.useIndex = false) (h : VisAgree cx cx' t u)
+    (f : List Filter) : matchingRows m cx t f u = matchingRows m cx' t f u := by
+  rw [matchingRows_scan m hi, matchingRows_scan m hi, ← h.rows]
+  apply List.filter_congr
+  intro r hr
+  rw [h.view r hr]
+
+theorem fullHits_obs (m : EvalMode) (cx : Ctx) (t : Table) (req : Request) :
+    (fullHits m cx t req).map obs =
+      (matchingRows m cx t req.filter req.authUser).map
+        (fun r => (r, req.sort.map (sortKeyOf (mkView cx t r)))) := by
+  simp [fullHits, mkHit, obs, Function.comp_def]
+
+theorem fullHits_visAgree (m : EvalMode) (hi : m.useIndex = false) (req : Request)
+    (h : VisAgree cx cx' t req.authUser) :
+    (fullHits m cx t req).map obs = (fullHits m cx' t req).map obs := by
+  have hmem : ∀ r ∈ matchingRows m cx t req.filter req.authUser,
+      r ∈ (tableRows cx t).filter (checkAuth cx t req.authUser) := by
+    rw [matchingRows_scan m hi]
+    exact fun r hr => (List.mem_filter.mp hr).1
+  rw [fullHits_obs, fullHits_obs, ← matchingRows_visAgree m hi h]
+  apply List.map_congr_left
+  intro r hr
+  rw [h.view r (hmem r hr)]
+
+/-- one backend, full scan: rows, sort keys, per-backend cut and per-backend total are the same -/
+theorem gatherRows_visAgree (m : EvalMode) (hi : m.useIndex = false) (req : Request)
+    (h : VisAgree cx cx' t req.authUser) :
+    (gatherRows m cx t req).hits.map obs = (gatherRows m cx' t req).hits.map obs ∧
+    (gatherRows m cx t req).total = (gatherRows m cx' t req).total := by
+  have e := fullHits_visAgree m hi req h
+  have len : (fullHits m cx t req).length = (fullHits m cx' t req).length := by
+    have := congrArg List.length e
+    simpa using this
+  rw [gatherRows_eq, gatherRows_eq]
+  cases peerCut m req with
+  | none => exact ⟨e, len⟩
+  | some l => exact ⟨by simp only [List.map_take, e], by simp only [len]⟩
+
+theorem foldRows_kstep_filter (ok : Row → Bool) (keyOf : Row → String) (cnt : Row → Accs → Option Accs)
+    (init : Accs) : ∀ (rows : List Row) (M : StatsMap),
+      foldRows (kstep ok keyOf cnt init) rows M =
+        foldRows (kstep (fun _ => true) keyOf cnt init) (rows.filter ok) M
+  | [], _ => rfl
+  | r :: rs, M => by
+    cases hr : ok r
+    · rw [List.filter_cons_of_neg (by simp [hr])]
+      simp only [foldRows, kstep, hr, Bool.not_false, if_true]
+      exact foldRows_kstep_filter ok keyOf cnt init rs M
+    · rw [List.filter_cons_of_pos hr]
+      simp only [foldRows, kstep, hr, Bool.not_true, Bool.false_eq_true, if_false]
+      cases M.upsert (keyOf r) init (cnt r) with
+      | none => rfl
+      | some M' => exact foldRows_kstep_filter ok keyOf cnt init rs M'
+
+theorem foldRows_congr (step step' : StatsMap → Row → Option StatsMap) :
+    ∀ (rows : List Row) (M : StatsMap), (∀ r ∈ rows, ∀ M, step M r = step' M r) →
+      foldRows step rows M = foldRows step' rows M
+  | [], _, _ => rfl
+  | r :: rs, M, h => by
+    simp only [foldRows, h r (List.mem_cons_self ..)]
+    cases step' M r with
+    | none => rfl
+    | some M' => exact foldRows_congr step step' rs M' (fun x hx => h x (List.mem_cons_of_mem _ hx))
+
+/-- one backend, full scan: the Stats map is the same -/
+theorem gatherStats_visAgree (m : StatsMode) (hi : m.useIndex = false) (req : Request) (cols : List Column)
+    (h : VisAgree cx cx' t req.authUser) :
+    gatherStats m cx t req cols = gatherStats m cx' t req cols := by
+  have hc : ∀ c : Ctx, (gsCands m c t req).filter (gsOk m c t req) =
+      ((tableRows c t).filter (checkAuth c t req.authUser)).filter (fun r =>
+        if m.pushDown then matchAll m.q (mkView c t r) req.filter else semList m.q (mkView c t r) req.filter) := by
+    intro c
+    unfold gsCands
+    simp only [hi, Bool.false_eq_true, if_false]
+    rw [List.filter_filter]
+    apply List.filter_congr
+    intro r _
+    simp only [gsOk]
+  rw [gatherStats_eq, gatherStats_eq, foldRows_kstep_filter (gsOk m cx t req),
+    foldRows_kstep_filter (gsOk m cx' t req), hc cx, hc cx', ← h.rows]
+  have hl : ((tableRows cx t).filter (checkAuth cx t req.authUser)).filter (fun r =>
+        if m.pushDown then matchAll m.q (mkView cx' t r) req.filter else semList m.q (mkView cx' t r) req.filter) =
+      ((tableRows cx t).filter (checkAuth cx t req.authUser)).filter (fun r =>
+        if m.pushDown then matchAll m.q (mkView cx t r) req.filter else semList m.q (mkView cx t r) req.filter) := by
+    apply List.filter_congr
+    intro r hr
+    rw [h.view r hr]
+  rw [hl]
+  apply foldRows_congr
+  intro r hr M
+  have hv := h.view r (List.mem_filter.mp hr).1
+  have hcnt : gsCount m cx t req r = gsCount m cx' t req r := by
+    funext a
+    simp only [gsCount, hv]
+  simp only [kstep, gsKey, hcnt, hv]
+
+end VisAgree
+
+/-- whole query: corresponding backends agree on what the user sees -/
+theorem dataQuery_visAgree (m : EvalMode) (hi : m.useIndex = false) (s : Schema) (ds ds' : Dataset) (t : Table)
+    (req : Request) (f : Backend → Backend)
+    (hav : availBackends ds' t req = (availBackends ds t req).map f)
+    (hvis : ∀ b ∈ availBackends ds t req,
+      VisAgree { schema := s, ds := ds, b := b } { schema := s, ds := ds', b := f b } t req.authUser) :
+    (dataQuery m s ds' t req).total = (dataQuery m s ds t req).total ∧
+    (dataQuery m s ds' t req).hits.map obs = (dataQuery m s ds t req).hits.map obs := by
+  have htot : totalOf m s ds' t req = totalOf m s ds t req := by
+    rw [totalOf_eq_sum, totalOf_eq_sum, hav, List.map_map]
+    congr 1
+    apply List.map_congr_left
+    intro b hb
+    exact (gatherRows_visAgree m hi req (hvis b hb)).2.symm
+  have hcol : (collected m s ds' t req).map obs = (collected m s ds t req).map obs := by
+    rw [collected_eq_flatMap, collected_eq_flatMap, hav, List.flatMap_map, List.map_flatMap, List.map_flatMap]
+    apply Dist.flatMap_congr_mem
+    intro b hb
+    exact (gatherRows_visAgree m hi req (hvis b hb)).1.symm
+  have hpool : (rawPool m s ds' t req).map obs = (rawPool m s ds t req).map obs := by
+    unfold rawPool
+    split
+    · exact hcol
+    · rw [List.map_mergeSort (f := obs) (r := Hit.le (dirsOf req))
+          (s := fun (a b : Row × List SortKey) => cmpKeys (dirsOf req) a.2 b.2 != .gt) (fun _ _ _ _ => rfl),
+        List.map_mergeSort (f := obs) (r := Hit.le (dirsOf req))
+          (s := fun (a b : Row × List SortKey) => cmpKeys (dirsOf req) a.2 b.2 != .gt) (fun _ _ _ _ => rfl), hcol]
+  refine ⟨by rw [dataQuery_total, dataQuery_total, htot], ?_⟩
+  rw [dataQuery_eq, dataQuery_eq, htot]
+  split
+  · rfl
+  · simp only [window]
+    cases req.limit with
+    | none => simp only [List.map_drop, hpool]
+    | some l => simp only [List.map_take, List.map_drop, hpool]
+
+
+/-- Stats of the whole query: corresponding backends agree on what the user sees -/
+theorem statsQuery_visAgree (m : StatsMode) (hi : m.useIndex = false) (s : Schema) (ds ds' : Dataset) (t : Table)
+    (req : Request) (f : Backend → Backend)
+    (hav : availBackends ds' t req = (availBackends ds t req).map f)
+    (hvis : ∀ b ∈ availBackends ds t req,
+      VisAgree { schema := s, ds := ds, b := b } { schema := s, ds := ds', b := f b } t req.authUser) :
+    (statsQuery m s ds' t req).crash = (statsQuery m s ds t req).crash ∧
+    (statsQuery m s ds' t req).rows = (statsQuery m s ds t req).rows := by
+  have hg : (availBackends ds' t req).map (Dist.gsOf m s ds' t req) =
+      (availBackends ds t req).map (Dist.gsOf m s ds t req) := by
+    rw [hav, List.map_map]
+    apply List.map_congr_left
+    intro b hb
+    exact (gatherStats_visAgree m hi req _ (hvis b hb)).symm
+  have hcr : ∀ d : Dataset, Dist.crashOf m s d t req (availBackends d t req) =
+      ((availBackends d t req).map (Dist.gsOf m s d t req)).any Option.isNone := by
+    intro d; simp [Dist.crashOf, List.any_map, Function.comp_def]
+  have hmg : ∀ d : Dataset, Dist.mergedOf m s d t req (availBackends d t req) =
+      (((availBackends d t req).map (Dist.gsOf m s d t req)).filterMap id).foldl mergeStats [] := by
+    intro d; simp [Dist.mergedOf, Dist.mapsOf, List.filterMap_map, Function.comp_def]
+  have hc : Dist.crashOf m s ds' t req (availBackends ds' t req) =
+      Dist.crashOf m s ds t req (availBackends ds t req) := by rw [hcr, hcr, hg]
+  refine ⟨by rw [Dist.statsQuery_crash, Dist.statsQuery_crash, hc], ?_⟩
+  rw [Dist.statsQuery_eq, Dist.statsQuery_eq, hc, hmg ds', hmg ds, hg]
+  split <;> rfl
+
+/-- `VisAgree` from the specification side -/
+theorem visAgree_of_mayView {cx cx' : Ctx} {t : Table} {u : String}
+    (hr : (tableRows cx t).filter (mayView cx t u) = (tableRows cx' t).filter (mayView cx' t u))
+    (hv : ∀ r ∈ (tableRows cx t).filter (mayView cx t u), mkView cx t r = mkView cx' t r) :
+    VisAgree cx cx' t u := by
+  have e : ∀ c : Ctx, checkAuth c t u = mayView c t u := fun c => funext (checkAuth_eq_mayView c t u)
+  exact ⟨by rw [e, e]; exact hr, by rw [e]; exact hv⟩
+
+/-! ## 6. the same store under other authorisation settings -/
+
+/-- the dataset with the settings `ServiceAuthorization` (`sl` = loose) and `GroupAuthorization` (`gl` = loose) -/
+def setAuth (ds : Dataset) (sl gl : Bool) : Dataset := { ds with serviceAuthLoose := sl, groupAuthLoose := gl }
+
+theorem sameData_setAuth (s : Schema) (ds : Dataset) (b : Backend) (sl gl sl' gl' : Bool) :
+    SameData { schema := s, ds := setAuth ds sl gl, b := b } { schema := s, ds := setAuth ds sl' gl', b := b } :=
+  ⟨rfl, rfl⟩
+
+theorem avail_setAuth (ds : Dataset) (sl gl : Bool) (t : Table) (req : Request) :
+    availBackends (setAuth ds sl gl) t req = availBackends ds t req := rfl
+
+/-- same backend data, same verdict of the authorisation test on every row: same per-backend result -/
+theorem gatherRows_sd {cx cx' : Ctx} (h : SameData cx cx') (m : EvalMode) (t : Table) (req : Request)
+    (ha : ∀ r, checkAuth cx t req.authUser r = checkAuth cx' t req.authUser r) :
+    gatherRows m cx t req = gatherRows m cx' t req := by
+  have h1 : checkAuth cx t req.authUser = checkAuth cx' t req.authUser := funext ha
+  simp only [gatherRows, tableRows_sd h, preFiltered_sd h, mkView_sd h, h1, h.b]
+
+theorem dataQuery_setAuth_eq (m : EvalMode) (s : Schema) (ds : Dataset) (t : Table) (req : Request)
+    (sl gl sl' gl' : Bool)
+    (ha : ∀ b ∈ availBackends ds t req, ∀ r,
+      checkAuth { schema := s, ds := setAuth ds sl gl, b := b } t req.authUser r =
+        checkAuth { schema := s, ds := setAuth ds sl' gl', b := b } t req.authUser r) :
+    dataQuery m s (setAuth ds sl gl) t req = dataQuery m s (setAuth ds sl' gl') t req := by
+  have hp : peerResults m s (setAuth ds sl gl) t req = peerResults m s (setAuth ds sl' gl') t req := by
+    unfold peerResults
+    rw [avail_setAuth, avail_setAuth]
+    apply List.map_congr_left
+    intro b hb
+    exact gatherRows_sd (sameData_setAuth s ds b sl gl sl' gl') m t req (ha b hb)
+  rw [dataQuery_eq, dataQuery_eq]
+  unfold rawPool collected totalOf
+  rw [hp]
+  rfl
+
+/-! ## 7. the total of the plain data request -/
+
+theorem dataReq_total (m : StatsMode) (s : Schema) (ds : Dataset) (t : Table) (req : Request) :
+    (dataQuery (dataMode m) s ds t (dataReq req)).total =
+      (dataQuery (dataMode m) s ds t (dataReq req)).hits.length := by
+  rw [dataQuery_total, totalOf_eq_sum, C04.rows_partition (dataMode m) s ds t (dataReq req) rfl rfl rfl,
+    length_flatMap_sum]
+  congr 1
+
+/-- a user no service of the backend names is a service contact of nothing -/
+theorem svcContact_false {cx : Ctx} {u : String} (hs : ∀ r ∈ cx.b.rows "services", u ∉ r.strList "contacts")
+    (x y : String) : svcContact cx u x y = false := by
+  unfold svcContact listsContact
+  cases hr : svcRow cx x y with
+  | none => rfl
+  | some r =>
+    have hm : r ∈ cx.b.rows "services" := (Lemmas.findByKey_some hr).1
+    simpa using hs r hm
+
 end Lmd.AuthWhole
